@@ -188,6 +188,30 @@ def handle : P String := do
     else
       let base ← ratList
       pure (showVecs "V" (splitterSplit b ps rm bm base))
+  | "async" =>
+    -- every asynchronous reduction of Gate / Global::Vector on type-1 vectors x, y; see harness op_async for the order
+    let bs ← nat; let (_, ps) ← decompP
+    let xs ← vecsP ps.length
+    let ys ← vecsP ps.length
+    let pe := ps.map (Patch.expand bs)
+    let loc := (List.range pe.length).map fun r => gdotAsyncLocal (pe.getD r default) (xs.getD r []) (xs.getD r [])
+    let scal := xs.map fun x => x.headD 0
+    pure (" ".intercalate ["A", showRat (gdotAsync none pe xs ys), showRat (gnorm2sqrAsync pe xs), showRat (gnorm2Async qsqrt pe xs),
+      showRat (gdotAsync (some qsqrt) pe xs xs), showRatsL (loc.map qsqrt),
+      showRat (gMaxAbs xs), showRat (gMinAbs xs), showRat (gMax xs), showRat (gMin xs),
+      showRat (sumAsync none scal), showRat (sumAsync (some qsqrt) (scal.map fun t => t * t)), showRat (allMin scal), showRat (allMax scal),
+      showRat (gateNorm2 qsqrt scal)])
+  | "casync" =>
+    let kn ← tok
+    match kindTree kn with
+    | none => throw s!"unknown kind {kn}"
+    | some k =>
+      let ps ← cdecompP k
+      let xs ← cvecsP k ps.length
+      let ys ← cvecsP k ps.length
+      let loc := fun (us vs : List (CVec Rat)) => allSum ((List.range ps.length).map fun r =>
+        tripleDot (cfreqs (ps.getD r default)).flat (us.getD r default).flat (vs.getD r default).flat)
+      pure s!"A {showRat (loc xs ys)} {showRat (loc xs xs)} {showRat (qsqrt (loc xs xs))}"
   | "csync0" | "csync1" =>
     let kn ← tok
     match kindTree kn with
